@@ -382,6 +382,11 @@ string Subprocess::communicate(
     close(this->stdin_write_fd);
     this->stdin_write_fd = -1;
   } else {
+    // Write without blocking: a blocking write() of more data than fits in
+    // the pipe returns only when the child has read all of it, and a child
+    // that is itself blocked writing its output (which nobody collects while
+    // we sleep in write()) never does
+    make_fd_nonblocking(this->stdin_write_fd);
     p.add(this->stdin_write_fd, POLLOUT);
   }
   p.add(this->stdout_read_fd, POLLIN);
@@ -436,7 +441,9 @@ string Subprocess::communicate(
           bytes_remaining);
 
       bool should_close_stdin = false;
-      if (bytes_written <= 0) {
+      if ((bytes_written < 0) && ((errno == EAGAIN) || (errno == EWOULDBLOCK) || (errno == EINTR))) {
+        // the pipe is full again; try after the next poll
+      } else if (bytes_written <= 0) {
         should_close_stdin = true;
       } else {
         stdin_offset += bytes_written;
